@@ -318,5 +318,8 @@ func (c *Config) NewCpu() (*cpu.CPU6502, error) {
 		return nil, err
 	}
 
+	// Copying the preloaded images into memory is not an access made by a program
+	cpu.Mem.ClearStatistics()
+
 	return cpu, nil
 }
